@@ -87,6 +87,8 @@ pub enum Dev {
     Repeat,
     /// the request a second time after one hour and a second
     RepeatLater,
+    /// the same request again and again one bucket interval later (refusals must not age the fee history)
+    RepeatNextBucket,
 }
 
 fn dev_kind(d: &Dev) -> String {
@@ -222,6 +224,7 @@ fn run_case(case: &Case) -> Res {
                 },
             Dev::Repeat => repeat = 1,
             Dev::RepeatLater => repeat = 2,
+            Dev::RepeatNextBucket => repeat = 3,
         }
     }
     if r.skipped {
@@ -466,14 +469,28 @@ fn run_case(case: &Case) -> Res {
         Ok(())
     };
     // ---- requests ----
-    let rounds = if repeat > 0 { 2 } else { 1 };
+    let rounds = match repeat {
+        0 => 1,
+        3 => 22,
+        _ => 2,
+    };
     let mut prior: u128 = 0;
+    let mut advanced = false;
     for round in 0..rounds {
         if round == 1 && repeat == 2 {
             use lightning_signer::util::clock::Clock;
             let now = w.clock.now();
             w.clock.set(now + std::time::Duration::from_secs(3601 + 300));
             prior = 0;
+        }
+        if repeat == 3 && !advanced && r.refused {
+            // the request was repeated until the allowance ran out; one bucket (300 s) later
+            // everything accepted so far is still inside the hourly window, so it has to stay
+            // refused however often it is proposed again
+            use lightning_signer::util::clock::Clock;
+            let now = w.clock.now();
+            w.clock.set(now + std::time::Duration::from_secs(301));
+            advanced = true;
         }
         let expect = fee_ref(prior);
         r.calls += 1;
@@ -502,7 +519,7 @@ fn run_case(case: &Case) -> Res {
             match o {
                 Outcome::Ok(None) => {
                     r.accepted = true;
-                    r.class = format!("{}accepted", if round == 1 { "2nd-" } else { "" });
+                    r.class = format!("{}accepted", if round == 1 { "2nd-" } else if round > 1 { "nth-" } else { "" });
                     if let Err(wy) = &expect {
                         r.ref_why = wy.clone();
                         r.vio = Some((format!("C08:check_onchain_tx:passed-although:{}", wy), format!("{:?} (request {}): inputs {} beneficial {} weight<= {} max rate {}: {}", case, round + 1, sum_in, beneficial, w_up, p.max_feerate_per_kw, wy)));
@@ -721,6 +738,7 @@ fn alphabet(c: &Case) -> Vec<Dev> {
     }
     v.push(Dev::Repeat);
     v.push(Dev::RepeatLater);
+    v.push(Dev::RepeatNextBucket);
     v
 }
 
